@@ -477,17 +477,11 @@ func (e *Exec) step(s *State, in ssa.Instruction) {
 		s.regs[x] = e.val(s, x.X)
 	case *ssa.MakeInterface:
 		v := e.val(s, x.X)
-		if _, isPtr := x.X.Type().Underlying().(*types.Pointer); isPtr {
-			// pointer-shaped: keep an id derived from the object so that equal pointers give equal interfaces
-			id := c.fresh("Int", "iface")
-			c.assume("true", c.B("(< 0 %s)", id))
-			e.p.ifaceObj[id] = v
-			s.regs[x] = Val{id}
-		} else {
-			id := c.fresh("Int", "iface")
-			c.assume("true", c.B("(< 0 %s)", id))
-			s.regs[x] = Val{id}
-		}
+		id := c.fresh("Int", "iface")
+		c.assume("true", c.B("(< 0 %s)", id))
+		e.p.ifaceObj[id] = v
+		e.p.ifaceTyp[id] = x.X.Type()
+		s.regs[x] = Val{id}
 	case *ssa.MakeClosure:
 		fn := x.Fn.(*ssa.Function)
 		id := fmt.Sprintf("%d", 5000+len(e.root.closures))
@@ -621,13 +615,34 @@ func (c *Ctx) toUnsigned(x string, l leaf) string {
 	if !l.signed {
 		return x
 	}
+	if u, ok := c.uOf[x]; ok {
+		return u
+	}
+	if m := c.getMax(x); m != nil { // known non-negative
+		return x
+	}
+	if v, ok := isLit(x); ok {
+		return v.String()
+	}
+	if strings.HasPrefix(x, "(- ") {
+		if v, ok := new(big.Int).SetString(strings.TrimSuffix(strings.TrimPrefix(x, "(- "), ")"), 10); ok {
+			return new(big.Int).Sub(pow2(l.bits), v).String()
+		}
+	}
 	return c.I("(mod %s %s)", x, pow2(l.bits))
 }
 func (c *Ctx) fromUnsigned(x string, l leaf) string {
 	if !l.signed {
 		return x
 	}
-	return c.I("(ite (>= %s %s) (- %s %s) %s)", x, pow2(l.bits-1), x, pow2(l.bits), x)
+	if m := c.getMax(x); m != nil && m.Cmp(pow2(l.bits-1)) < 0 {
+		return x
+	}
+	r := c.I("(ite (>= %s %s) (- %s %s) %s)", x, pow2(l.bits-1), x, pow2(l.bits), x)
+	if c.raw == 0 {
+		c.uOf[r] = x
+	}
+	return r
 }
 
 func (c *Ctx) bitwise(op token.Token, a, b string, bits int) string {
@@ -723,12 +738,32 @@ func (e *Exec) binop(s *State, x *ssa.BinOp) Val {
 			if x.Op == token.QUO {
 				r := c.I("(div %s %s)", a[0], b[0])
 				if m := c.getMax(a[0]); m != nil {
-					c.setMax(r, m)
+					if k, ok := constInt(x.Y); ok && k.Sign() > 0 {
+						c.setMax(r, new(big.Int).Div(m, k))
+					} else {
+						c.setMax(r, m)
+					}
 				}
 				return res(r)
 			}
 			r := c.I("(mod %s %s)", a[0], b[0])
 			if k, ok := constInt(x.Y); ok && k.Sign() > 0 {
+				c.setMax(r, new(big.Int).Sub(k, big.NewInt(1)))
+			}
+			return res(r)
+		}
+		if k, ok := constInt(x.Y); ok && k.Sign() > 0 {
+			// positive constant divisor: no overflow possible, one case split on the dividend's sign
+			q := c.I("(ite (>= %s 0) (div %s %s) (- (div (- %s) %s)))", a[0], a[0], b[0], a[0], b[0])
+			if m := c.getMax(a[0]); m != nil {
+				q = c.I("(div %s %s)", a[0], b[0])
+				c.setMax(q, new(big.Int).Div(m, k))
+			}
+			if x.Op == token.QUO {
+				return res(q)
+			}
+			r := c.I("(- %s (* %s %s))", a[0], q, b[0])
+			if c.getMax(a[0]) != nil {
 				c.setMax(r, new(big.Int).Sub(k, big.NewInt(1)))
 			}
 			return res(r)
@@ -747,8 +782,18 @@ func (e *Exec) binop(s *State, x *ssa.BinOp) Val {
 		if !ok {
 			return res(e.varShift(s, x, a[0], b[0], l))
 		}
+		if l.signed && c.raw == 0 && k.Sign() >= 0 && k.BitLen() < 16 && (x.Op == token.SHL || c.getMax(a[0]) != nil) {
+			if t, ok := c.unsignedFast(x.Op.String(), c.toUnsigned(a[0], l), k.String(), l.bits); ok {
+				return res(c.fromUnsigned(t, l))
+			}
+		}
 		return res(e.constShift(x.Op, a[0], int(k.Int64()), l))
 	case token.AND, token.AND_NOT, token.OR, token.XOR:
+		if l.signed && c.raw == 0 {
+			if t, ok := c.unsignedFast(x.Op.String(), c.toUnsigned(a[0], l), c.toUnsigned(b[0], l), l.bits); ok {
+				return res(c.fromUnsigned(t, l))
+			}
+		}
 		ua, ub := c.toUnsigned(a[0], l), c.toUnsigned(b[0], l)
 		if l.signed {
 			ka, oka := constInt(x.X)
@@ -786,6 +831,11 @@ func (e *Exec) constShift(op token.Token, a string, sh int, l leaf) string {
 		return "0"
 	}
 	r := c.I("(* %s %s)", a, pow2(sh))
+	if m := c.getMax(a); m != nil && l.signed && new(big.Int).Lsh(m, uint(sh)).Cmp(pow2(l.bits-1)) < 0 {
+		c.setMax(r, new(big.Int).Lsh(m, uint(sh)))
+		c.lowz[r] = sh
+		return r
+	}
 	if m := c.getMax(a); m != nil && new(big.Int).Lsh(m, uint(sh)).Cmp(pow2(l.bits)) < 0 && !l.signed {
 		c.setMax(r, new(big.Int).Lsh(m, uint(sh)))
 		c.lowz[r] = sh
